@@ -307,7 +307,10 @@ theorem step_agree {P O : Type} (S : Sem P O) {b : Nat} {s₁ s₂ : St P} (hA :
   case setSeed s cpu =>
     cases cpu
     · exact ⟨hA, rfl⟩
-    · exact ⟨⟨rfl, hn, hA.objs, hA.files⟩, rfl⟩
+    · simp only [step, if_true]
+      cases seedWord s
+      · exact ⟨hA, rfl⟩
+      · exact ⟨⟨rfl, hn, hA.objs, hA.files⟩, rfl⟩
   case burn m =>
     refine ⟨⟨?_, hn, hA.objs, hA.files⟩, rfl⟩
     simp only [step, ht]
@@ -408,9 +411,13 @@ theorem step_withMix {P O : Type} (S : Sem P O) (mix' : Nat → Nat → Nat) (s 
 
 theorem step_seedOf {P O : Type} (S : Sem P O) (s : St P) (op : Op) :
     (step S s op).1.torchGen.seedOf
-      = (match op with | .setSeed s' true => s' | _ => s.torchGen.seedOf) := by
+      = (match op with | .setSeed s' true => (seedWord s').getD s.torchGen.seedOf | _ => s.torchGen.seedOf) := by
   cases op
-  case setSeed s' cpu => cases cpu <;> rfl
+  case setSeed s' cpu =>
+    cases cpu
+    · rfl
+    · simp only [step, if_true]
+      cases seedWord s' <;> rfl
   case burn m => simp [step, take_snd]
   case construct => simp [step, take_snd]
   case seedNumpy => rfl
@@ -427,7 +434,7 @@ theorem step_seedOf {P O : Type} (S : Sem P O) (s : St P) (op : Op) :
 
 theorem run_withMix {P O : Type} (S : Sem P O) (mix' : Nat → Nat → Nat) (ops : List Op) :
     ∀ (st : St P), StreamEq S.mix mix' st.torchGen.seedOf →
-      (∀ op ∈ ops, ∀ s', op = .setSeed s' true → StreamEq S.mix mix' s') →
+      (∀ op ∈ ops, ∀ s' w, op = .setSeed s' true → seedWord s' = some w → StreamEq S.mix mix' w) →
       (∀ op ∈ ops, op.isExternal = false) →
       run (S.withMix mix') st ops = run S st ops := by
   induction ops with
@@ -439,7 +446,10 @@ theorem run_withMix {P O : Type} (S : Sem P O) (mix' : Nat → Nat → Nat) (ops
     have hnext : StreamEq S.mix mix' (step S st op).1.torchGen.seedOf := by
       rw [step_seedOf]
       split
-      · exact hseeds _ List.mem_cons_self _ rfl
+      · rename_i s'
+        cases hw : seedWord s' with
+        | none => exact h0
+        | some w => exact hseeds _ List.mem_cons_self _ _ rfl hw
       · exact h0
     rw [ih _ hnext (fun o ho => hseeds o (List.mem_cons_of_mem _ ho))
       (fun o ho => hne o (List.mem_cons_of_mem _ ho))]
@@ -451,7 +461,11 @@ theorem step_objs_of_not_writes {P O : Type} (S : Sem P O) (s : St P) (op : Op)
     (h : op.writesParams = false) :
     (step S s op).1.objs = s.objs ∧ (step S s op).1.nextId = s.nextId := by
   cases op <;> simp [Op.writesParams] at h
-  case setSeed s' cpu => cases cpu <;> exact ⟨rfl, rfl⟩
+  case setSeed s' cpu =>
+    cases cpu
+    · exact ⟨rfl, rfl⟩
+    · simp only [step, if_true]
+      cases seedWord s' <;> exact ⟨rfl, rfl⟩
   case burn => exact ⟨rfl, rfl⟩
   case seedNumpy => exact ⟨rfl, rfl⟩
   case perturbNumpy => exact ⟨rfl, rfl⟩
@@ -540,7 +554,11 @@ theorem step_objs_other {P O : Type} (S : Sem P O) (s : St P) (op : Op) (j : Nat
 theorem step_other_gens {P O : Type} (S : Sem P O) (s : St P) (op : Op) (h : op.isExternal = false) :
     (step S s op).1.numpyGen = s.numpyGen ∧ (step S s op).1.pyGen = s.pyGen := by
   cases op <;> simp [Op.isExternal] at h
-  case setSeed s' cpu => cases cpu <;> exact ⟨rfl, rfl⟩
+  case setSeed s' cpu =>
+    cases cpu
+    · exact ⟨rfl, rfl⟩
+    · simp only [step, if_true]
+      cases seedWord s' <;> exact ⟨rfl, rfl⟩
   case burn => exact ⟨rfl, rfl⟩
   case construct => exact ⟨rfl, rfl⟩
   all_goals
@@ -580,5 +598,81 @@ theorem run_skeleton {P O : Type} (S : Sem P O) (ops : List Op) :
       exact ih _
     · simp only [skeleton, h, run_cons]
       exact ih _
+
+/-! ### the seeding call: accepted seeds, and dependence of a run on the seed word's STREAM only -/
+
+theorem step_setSeed_ok {P O : Type} (S : Sem P O) (st : St P) (s : Int) (w : Nat) (h : seedWord s = some w) :
+    step S st (.setSeed s true) = ({ st with torchGen := ⟨w, 0⟩ }, .none) := by
+  simp only [step, if_true, h]
+
+theorem step_setSeed_rejected {P O : Type} (S : Sem P O) (st : St P) (s : Int) (h : seedWord s = none) :
+    step S st (.setSeed s true) = (st, .err .ValueError) := by
+  simp only [step, if_true, h]
+
+/-- the same process with torch's generator carrying another seed word at the same position -/
+def relabel {P : Type} (b : Nat) (st : St P) : St P := { st with torchGen := ⟨b, st.torchGen.pos⟩ }
+
+theorem take_relabel (mix : Nat → Nat → Nat) (m : Nat) (g : Gen) (b : Nat)
+    (h : ∀ i, mix g.seedOf i = mix b i) :
+    Gen.take mix m ⟨b, g.pos⟩ = ((Gen.take mix m g).1, ⟨b, (Gen.take mix m g).2.pos⟩) := by
+  apply Prod.ext
+  · simp only [take_fst, h]
+  · simp only [take_snd]
+
+/-- one operation on a process whose generator carries a seed word with the same stream: same result; the processes
+stay relabelings of each other, or become EQUAL when the operation is an accepted seeding -/
+theorem step_relabel {P O : Type} (S : Sem P O) (st : St P) (b : Nat)
+    (h : ∀ i, S.mix st.torchGen.seedOf i = S.mix b i) (op : Op) :
+    (step S (relabel b st) op).2 = (step S st op).2 ∧
+      ((step S (relabel b st) op).1 = relabel b (step S st op).1 ∧ (step S st op).1.torchGen.seedOf = st.torchGen.seedOf
+        ∨ (step S (relabel b st) op).1 = (step S st op).1) := by
+  have key : ∀ m, Gen.take S.mix m (relabel b st).torchGen
+      = ((Gen.take S.mix m st.torchGen).1, ⟨b, (Gen.take S.mix m st.torchGen).2.pos⟩) :=
+    fun m => take_relabel S.mix m st.torchGen b h
+  cases op
+  case setSeed s cpu =>
+    cases cpu
+    · exact ⟨rfl, Or.inl ⟨rfl, rfl⟩⟩
+    · simp only [step, if_true]
+      cases seedWord s
+      · exact ⟨rfl, Or.inl ⟨rfl, rfl⟩⟩
+      · exact ⟨rfl, Or.inr rfl⟩
+  case burn m =>
+    refine ⟨rfl, Or.inl ⟨?_, by simp [step, take_snd]⟩⟩
+    simp only [step, key]; rfl
+  case construct k n hh a =>
+    refine ⟨rfl, Or.inl ⟨?_, by simp [step, take_snd]⟩⟩
+    simp only [step, key]; rfl
+  case seedNumpy => exact ⟨rfl, Or.inl ⟨rfl, rfl⟩⟩
+  case perturbNumpy => exact ⟨rfl, Or.inl ⟨rfl, rfl⟩⟩
+  case seedPy => exact ⟨rfl, Or.inl ⟨rfl, rfl⟩⟩
+  case perturbPy => exact ⟨rfl, Or.inl ⟨rfl, rfl⟩⟩
+  all_goals
+    have hobjs : (relabel b st).objs = st.objs := rfl
+    have hfiles : (relabel b st).files = st.files := rfl
+    simp only [step, Op.slot?, hobjs]
+    split
+    · exact ⟨rfl, Or.inl ⟨rfl, rfl⟩⟩
+    · simp only [slotStep, key, hfiles, hobjs]
+      repeat' split
+      all_goals first
+        | exact ⟨rfl, Or.inl ⟨rfl, rfl⟩⟩
+        | exact ⟨rfl, Or.inl ⟨rfl, by simp [take_snd]⟩⟩
+        | (refine ⟨?_, Or.inl ⟨?_, ?_⟩⟩ <;> first | trivial | rfl | simp [relabel])
+
+theorem run_relabel {P O : Type} (S : Sem P O) (ops : List Op) :
+    ∀ (st : St P) (b : Nat), (∀ i, S.mix st.torchGen.seedOf i = S.mix b i) →
+      (run S (relabel b st) ops).2 = (run S st ops).2 := by
+  induction ops with
+  | nil => intros; rfl
+  | cons op ops ih =>
+    intro st b h
+    obtain ⟨h1, h2⟩ := step_relabel S st b h op
+    rw [run_cons, run_cons, h1]
+    have : (run S (step S (relabel b st) op).1 ops).2 = (run S (step S st op).1 ops).2 := by
+      rcases h2 with ⟨h2, h3⟩ | h2
+      · rw [h2]; exact ih _ b (by rw [h3]; exact h)
+      · rw [h2]
+    rw [this]
 
 end QV.Frame
